@@ -1084,7 +1084,7 @@ def listcomp(E, e):
 
 
 # ---------------------------------------------------------------- calls
-PY_BUILTINS = {"len", "min", "max", "abs", "int", "float", "round", "range", "isinstance", "str", "bool", "sum", "sorted", "list", "tuple", "dict", "set", "enumerate", "zip", "any", "all", "type", "repr", "hasattr", "getattr", "iter", "next", "print", "issubclass", "id", "callable", "reversed", "super", "open", "bytes", "bytearray", "divmod"}
+PY_BUILTINS = {"filter", "len", "min", "max", "abs", "int", "float", "round", "range", "isinstance", "str", "bool", "sum", "sorted", "list", "tuple", "dict", "set", "enumerate", "zip", "any", "all", "type", "repr", "hasattr", "getattr", "iter", "next", "print", "issubclass", "id", "callable", "reversed", "super", "open", "bytes", "bytearray", "divmod"}
 
 
 def eval_args(E, e):
@@ -1726,6 +1726,28 @@ def py_builtin(E, name, e):
         return format_uf(E, "str({})", [v])
     if name == "repr":
         return format_uf(E, "repr({})", [args[0]])
+    if name == "filter" and len(args) == 2 and args[0].ty == "none" and not st.spec:
+        # filter(None, xs) as a value: a new list holding the truthy elements of xs, in order. Modelled by its length only: between 0 and len(xs),
+        # equal to len(xs) iff every element is truthy, 0 iff none is; its elements are elements of xs.
+        src = args[1]
+        t = E.full_ty(src)
+        if not (isinstance(t, tuple) and t[0] == "list"):
+            raise OutOfSubset(f"filter(None, {t})")
+        ety = E.elem_ty(src)
+        n = E.len_of(src)
+        out = E.alloc_list(ety)
+        cnt = fresh("nfiltered")
+        j = z3.Int(f"j!f{next(_cnt)}")
+        st.bound.append(j)
+        try:
+            tz = E.truthy(E.list_get(src, j, check=False))
+        finally:
+            st.bound.pop()
+        st.pc.append(z3.And(cnt >= 0, cnt <= n))
+        st.pc.append((cnt == n) == z3.ForAll([j], z3.Implies(z3.And(0 <= j, j < n), tz)))
+        st.pc.append((cnt == 0) == z3.ForAll([j], z3.Implies(z3.And(0 <= j, j < n), z3.Not(tz))))
+        st.heap.store("len", I, out.z, cnt)
+        return out
     if name == "list":
         if not args:
             return E.alloc_list(None)
